@@ -29,7 +29,7 @@ func VerifyAppleAttestationStatement(
 	}
 	certificate := certificates[0]
 
-	authenticatorData, err := attestationObject.UnmarshalAuthenticatorData()
+	authenticatorData, err := attestationObject.unmarshalAttestedAuthenticatorData()
 	if err != nil {
 		return nil, fmt.Errorf("%w: %s", ErrInvalidAttestationStatement, err)
 	}
